@@ -14,5 +14,5 @@ CONSTANTS
   ConfSets = {}
   OtherSets = {}
   RefKind = "att"
-INVARIANTS TypeOK FlagSound TimeoutSignalHeard OfferedInFull SuccessIff ReturnsByTimeout Independence 
+INVARIANTS TypeOK FlagSound TimeoutSignalHeard OfferedInFull SuccessIff ReturnsByTimeout Independence DeliveredToEach 
 CHECK_DEADLOCK FALSE
